@@ -172,9 +172,44 @@ def run(prop, tier):
     for key, opts in plan["parts"]:
         u = U if key is None else U[key]
         run_part(report, prop, key, u, opts, tier)
+    if prop == "C18":
+        c18_real_objdump(report, tier)
     run_witnesses(report, prop)
     report.cov["exhaustive"] = True
     return report.finish()
+
+
+def c18_real_objdump(report, tier):
+    """code -> spec: real objdump text (templates with direct/indirect branches, random bytes) parsed without and with a
+    range; TLC validates that the second stream is an allowed tagging of the first."""
+    import random
+    from .. import objdump, parsepipe
+    from ..common import seed
+    rnd = random.Random(seed() * 17 + 5)
+    n_ins, n_blob = (1500, 9000) if tier == "quick" else (20000, 150000)
+    texts = [objdump.objdump_text(objdump.assemble(objdump.template_source(rnd, n_ins), "c18t")),
+             objdump.objdump_text(objdump.assemble(objdump.random_blob_source(rnd, n_blob), "c18b"))]
+    chunks = [ch for t in texts for ch in objdump.chunks(t.split("\n"), 40)]
+    ranges = [("0x0", "0x400"), ("100", "0x7ff"), ("0x0", "0xffffffffffffffff"), ("0x2000", "0x2000")]
+    flat = ["\n".join(ch) + "\n" for ch in chunks]
+    base = parsepipe.parse_texts(flat, "c18b0")
+    cases = []
+    for lo, hi in ranges:
+        rule = f"config:\n  valid_addr_range:\n    min: '{lo}'\n    max: '{hi}'\npattern:\n- zzzzzz\n"
+        obs = parsepipe.parse_texts(flat, "c18b1", rule=rule)
+        cases += [parsepipe.case("range", ch, [], o0, (), o1, (lo, hi)) for ch, o0, o1 in zip(chunks, base, obs)]
+    verdicts = parsepipe.validate(cases, report, "c18b")
+    for c, v in zip(cases, verdicts):
+        if v.startswith("rej") and len(report.violations) < 50:
+            report.violation(v[4:] + " (real objdump text)", {"kind": "parse", "mode": "range", "lines": c["lines"],
+                                                             "range": c["range"], "stream": c["stream"], "stream2": c["stream2"]})
+    report.cov["evaluations"] += len(cases)
+    report.cov["traces_validated_against_impl"] += len(cases)
+    report.cov["distinct_nontrivial"] += sum(v == "ok:tagged" for v in verdicts)
+    report.cov.setdefault("parts", []).append({"part": "real objdump chunks x ranges", "cases": len(cases),
+                                               "tagged": sum(v == "ok:tagged" for v in verdicts),
+                                               "skipped": sum(v.startswith("skip") for v in verdicts),
+                                               "rejected": sum(v.startswith("rej") for v in verdicts)})
 
 
 def replay(prop, path):
